@@ -447,6 +447,10 @@ func checkC11(r *core.Run) {
 		{"var-stmt-with-initialiser-in-block", []string{"k := 2", "if k > 1 { var z = k * 5; k = z }", "k"}, "10|"},
 		{"var-stmt-zero-value-after-use", []string{"s := []int{}", "s = append(s, 1)\nvar u []int\nu = append(u, len(s))\nu[0]"}, "1|"},
 		{"var-stmt-typed-in-nested-blocks", []string{"tot := 0", "for i := 0; i < 2; i++ { for j := 0; j < 2; j++ { var w int = i; w += j; tot += w } }", "tot"}, "4|"},
+		// closures created by a loop among interactive statements own their iteration's variables
+		{"loop-closures-capture-per-iteration", []string{"fs := []func() int{}", "for i := 0; i < 3; i++ { fs = append(fs, func() int { return i * 10 }) }", "fs[0]() + fs[1]()*10 + fs[2]()*100"}, "2100|"},
+		{"range-closures-capture-per-iteration", []string{"gs := []func() int{}", "for _, v := range []int{1, 2, 3} { gs = append(gs, func() int { return v }) }", "gs[0]()*100 + gs[1]()*10 + gs[2]()"}, "123|"},
+		{"loop-closures-called-in-later-eval-after-another-loop", []string{"hs := []func() int{}", "for i := 0; i < 2; i++ { k := i + 1; hs = append(hs, func() int { k += 10; return k }) }", "for j := 0; j < 3; j++ { _ = j }", "hs[0]() + hs[0]()", "hs[1]()"}, "12|"},
 		{"var-through-function-body", []string{"var w1 = fw()\nfunc fw() int { return w2 + 1 }\nvar w2 = 5", "w1"}, "6|"},
 	}
 	var mitems []core.BatchItem
